@@ -490,7 +490,12 @@ static _Bool one_diag_per_row(const crs *A)
 void h_sweep(void)
 {
   crs *A = crs_input();
-  REQUIRES(crs_wf(A, NMAX, NMAX, ZMAX) && A->nrows == A->ncols && one_diag_per_row(A));
+  REQUIRES(crs_wf(A, NMAX, NMAX, ZMAX) && A->nrows == A->ncols);
+#if ONE_DIAG
+  REQUIRES(one_diag_per_row(A));          /* sub-domain of C06 (non-zero diagonal) kept as its own variant at the larger bound */
+#endif
+  /* otherwise ANY pattern (C09: all sparsity patterns): a row without a stored diagonal entry is swept with D = identity, exactly
+   * as gauss_seidel::serial_sweep does; with several stored diagonal entries the last one is used (also as in serial_sweep) */
   MIRROR_CRS(A, A);
   const size_t n = A->nrows;
   V f[NMAX + 1], f0[NMAX + 1], x[NMAX + 1], xe[NMAX + 1];
@@ -520,14 +525,15 @@ void h_sweep(void)
 """,
     entry='h_sweep', mode='unwound', unwind='max(ZMAX,NMAX)+3', model='uf',
     defines={'NT': 2, 'OMPK': 1, 'NTASK': -1},
-    variants=[{'NMAX': 3, 'ZMAX': 4, 'TID': 1, 'NTASK': 1}, {'NMAX': 3, 'ZMAX': 4, 'TID': 0, 'NTASK': 2}, {'NMAX': 2, 'ZMAX': 4, 'TID': 1, 'NTASK': -1}],
-    thorough_variants=[{'NMAX': 3, 'ZMAX': 4, 'TID': t, 'NTASK': -1} for t in (0, 1)],
+    variants=[{'NMAX': 3, 'ZMAX': 4, 'TID': 1, 'NTASK': 1, 'ONE_DIAG': 1}, {'NMAX': 3, 'ZMAX': 4, 'TID': 0, 'NTASK': 2, 'ONE_DIAG': 1}, {'NMAX': 2, 'ZMAX': 4, 'TID': 1, 'NTASK': -1, 'ONE_DIAG': 1},
+              {'NMAX': 3, 'ZMAX': 3, 'TID': 1, 'NTASK': 1, 'ONE_DIAG': 0}, {'NMAX': 3, 'ZMAX': 3, 'TID': 0, 'NTASK': 2, 'ONE_DIAG': 0}],
+    thorough_variants=[{'NMAX': 3, 'ZMAX': 4, 'TID': t, 'NTASK': -1, 'ONE_DIAG': 1} for t in (0, 1)] + [{'NMAX': 3, 'ZMAX': 4, 'TID': t, 'NTASK': 2, 'ONE_DIAG': 0} for t in (0, 1)],
     bound_text='n <= 3, nnz <= 4 with 1 or 2 tasks (levels) and n <= 2 with any number of tasks (thorough: n <= 3, any number of tasks <= n); thread slots 0 and 1 of 2; '
-               'pattern (one diagonal entry per row), list of packed rows and task ranges symbolic; values uninterpreted',
+               'pattern with one diagonal entry per row at these bounds, ANY pattern (rows without or with several stored diagonal entries: D = identity resp. the last one, as in serial_sweep) for n <= 3, nnz <= 3 (thorough 4) with 1 or 2 tasks; list of packed rows and task ranges symbolic; values uninterpreted',
     assumptions=A_REGION, replay='relax2', timeout=300,
     witness=wit('A') + ['w_tid', 'w_ntasks', 'w_tbeg', 'w_tend', 'w_nord', 'w_ord'],
     not_decided=['that the interleaving of the threads of one level does not matter: S1-S3 of C09 + the standard argument',
-                 'rows without or with several stored diagonal entries', 'n beyond the bound'])
+                 'n beyond the bound'])
 gs_parallel_sweep.unwindset = REGION_UNWINDSET
 
 # ============================================================================ 4. relaxation::spai0 constructor
